@@ -33,6 +33,13 @@ func (u UploadMap) Empty() bool {
 }
 
 func (u *UploadMap) Add(upload *requests.Upload, varName string) {
+	// same file used in multiple positions is sent once
+	for _, item := range *u {
+		if item.upload == upload {
+			item.positions = append(item.positions, fmt.Sprintf("variables.%s", varName))
+			return
+		}
+	}
 	*u = append(*u, &UploadMapItem{
 		upload,
 		[]string{fmt.Sprintf("variables.%s", varName)},
